@@ -139,6 +139,42 @@ class CollV:
         return f"{{x in {self.base} | " + " and ".join(ast.unparse(b) for _p, b in self.preds) + "}"
 
 
+class BoundV:
+    """`obj.method` taken as a value (a local alias of a bound method).  `func` is the FuncInfo for a method of a model object
+    `recv`; for a container method (`append = rows.append`) `op` is the method name and `ref` the receiver expression."""
+    __slots__ = ("recv", "func", "op", "ref")
+
+    def __init__(self, recv=None, func=None, op=None, ref=None):
+        self.recv, self.func, self.op, self.ref = recv, func, op, ref
+
+    def __eq__(self, o):
+        return self is o
+
+    def __hash__(self):
+        return id(self)
+
+    def __repr__(self):
+        return f"<bound {self.recv!r}.{self.func.name}>" if self.func else f"<bound {ast.unparse(self.ref)}.{self.op}>"
+
+
+class RefV:
+    """A local name that denotes the *same container* as an attribute of a model object (`records = self.state_record_list`):
+    reading the name reads the attribute as it is now, mutating through the name mutates the attribute."""
+    __slots__ = ("obj", "attr")
+
+    def __init__(self, obj, attr):
+        self.obj, self.attr = obj, attr
+
+    def __eq__(self, o):
+        return isinstance(o, RefV) and o.obj == self.obj and o.attr == self.attr
+
+    def __hash__(self):
+        return hash(("R", self.obj.name, self.attr))
+
+    def __repr__(self):
+        return f"&{self.obj.name}.{self.attr}"
+
+
 class DictV:
     """A dict literal with decidable keys.  An entry whose value was written as the bare name of a local container keeps
     that *name* (`ref`): mutating `d[k]` mutates the local, as in Python where both denote the same object."""
@@ -529,7 +565,7 @@ class Interp:
                 continue
             callee = callees[0]
             depth = len(fr.stack)
-            if depth >= self.max_depth or not self.inline(call, callee, depth):
+            if depth >= self.max_depth + 2 or not (getattr(callee, "parent", None) is not None or (depth < self.max_depth and self.inline(call, callee, depth))):
                 continue
             nxt = []
             for st0, ex in outs:
@@ -553,6 +589,13 @@ class Interp:
         the method."""
         callees, resolved = fr.ft.resolve_call(call)
         f = call.func
+        if isinstance(f, ast.Name) and f.id in st.env:
+            bv = st.env[f.id]
+            if isinstance(bv, BoundV) and bv.func is not None:
+                return [bv.func], True
+            if isinstance(bv, FuncV) and isinstance(bv.node, ast.FunctionDef):
+                from .loader import FuncInfo
+                return [FuncInfo(bv.node.name, bv.node, fr.func.cls, fr.func.module, parent=fr.func)], True
         if (len(callees) != 1 or not resolved) and isinstance(f, ast.Attribute) and not any(isinstance(n, ast.Call) for n in ast.walk(f.value)):
             self._quiet += 1
             try:
@@ -573,6 +616,9 @@ class Interp:
         recv = None
         if unbound:
             recv = args.get("self")
+        elif isinstance(call.func, ast.Name) and isinstance(st.env.get(call.func.id), BoundV) and callee.params and callee.params[0] == "self":
+            recv = st.env[call.func.id].recv
+            args["self"] = recv
         elif isinstance(call.func, ast.Attribute) and callee.cls and callee.params and callee.params[0] == "self":
             if isinstance(call.func.value, ast.Call) and isinstance(call.func.value.func, ast.Name) and call.func.value.func.id == "super":
                 recv = st.env.get("self")
@@ -588,7 +634,7 @@ class Interp:
         st.trace.append(cev)
         saved_env = st.env
         nfr = Frame(callee, self.types.ftypes(callee), fr.stack + ((fr.func.loc(call), callee.qualname),))
-        env = {}
+        env = dict(saved_env) if getattr(callee, "parent", None) is not None else {}   # a nested def sees the locals of its definer
         for p in callee.params + callee.kwonly:
             if p in args:
                 env[p] = args[p]
@@ -611,8 +657,24 @@ class Interp:
                 rebound = any((isinstance(n, ast.Name) and n.id == p and isinstance(n.ctx, ast.Store)) for n in ast.walk(callee.node))
                 if not rebound:
                     shared[p] = a.id
+        nested = getattr(callee, "parent", None) is not None
+        own = set()
+        if nested:
+            own = set(callee.params) | set(callee.kwonly)
+            nonloc = set()
+            for n in ast.walk(callee.node):
+                if isinstance(n, ast.Name) and isinstance(n.ctx, ast.Store):
+                    own.add(n.id)
+                elif isinstance(n, (ast.Nonlocal, ast.Global)):
+                    nonloc |= set(n.names)
+            own -= nonloc
         for st1, ex in self.exec_block(callee.body(), st, nfr):
             back = {a: st1.env[p] for p, a in shared.items() if p in st1.env and st1.env[p] is not env0.get(p)}
+            if nested:
+                # free variables of a nested def are the definer's locals: what the body did to them stays
+                for k, v in st1.env.items():
+                    if k in saved_env and k not in own and v is not saved_env[k]:
+                        back[k] = v
             st1.env = dict(saved_env)
             st1.env.update(back)
             if ex is None:
@@ -648,13 +710,15 @@ class Interp:
             if isinstance(a, ast.Starred):
                 continue
             if i < len(params):
-                args[params[i]] = self.eval(a, st, fr)
+                v = self.eval(a, st, fr)
+                args[params[i]] = self._ref_of(a, v, st, fr) or v
         extra = []
         for kw in call.keywords:
             if kw.arg is None:
                 continue
             if kw.arg in callee.params or kw.arg in callee.kwonly:
-                args[kw.arg] = self.eval(kw.value, st, fr)
+                v = self.eval(kw.value, st, fr)
+                args[kw.arg] = self._ref_of(kw.value, v, st, fr) or v
             else:
                 extra.append(kw.arg)
         if extra:
@@ -667,7 +731,13 @@ class Interp:
             return [(st, None)]
         if isinstance(s, ast.Assign):
             v = self.eval(s.value, st, fr, effects=True)
+            ref = self._ref_of(s.value, v, st, fr)
             for t in s.targets:
+                if ref is not None and isinstance(t, ast.Name):
+                    st.env[t.id] = ref   # alias of a model object's container: same object, not a copy
+                    for k in [k for k in st.memo if k[0] == fr.uid and _mentions(k[1], t.id)]:
+                        del st.memo[k]
+                    continue
                 self.assign(t, v, st, fr, s)
             return [(st, None)]
         if isinstance(s, ast.AnnAssign):
@@ -1223,6 +1293,78 @@ class Interp:
         else:
             raise AnalysisError(f"unsupported assignment target at {fr.func.loc(stmt)}")
 
+    def _ref_of(self, node, v, st, fr):
+        """RefV when `node` denotes a mutable container held in an attribute of a model object (or is itself such an alias)."""
+        if isinstance(node, ast.Name) and isinstance(st.env.get(node.id), RefV):
+            return st.env[node.id]
+        if isinstance(node, ast.Attribute) and isinstance(node.ctx, ast.Load):
+            t = None
+            if isinstance(v, (ListV, CollV)) or (isinstance(v, Unk) and v.typ and v.typ[0] in ("list", "set", "dict")):
+                self._quiet += 1
+                try:
+                    base = self.eval(node.value, st, fr)
+                finally:
+                    self._quiet -= 1
+                if isinstance(base, Obj) and base.cls:
+                    return RefV(base, node.attr)
+        return None
+
+    def deref(self, r, st):
+        k = (r.obj.name, r.attr)
+        if k in st.heap:
+            return st.heap[k]
+        t = self.types.field_type(r.obj.cls, r.attr) if r.obj.cls else None
+        v = self.value_for_type(f"{r.obj.name}.{r.attr}", t)
+        st.heap[k] = v
+        return v
+
+    _MODCONST = {}
+
+    def _module_const(self, name, fr):
+        """Value of a module-level name that is assigned exactly once at top level (lookup tables, constants)."""
+        mod = fr.func.module
+        key = (id(self.repo), mod.path, name)
+        if key in Interp._MODCONST:
+            return Interp._MODCONST[key]
+        Interp._MODCONST[key] = None   # cycle guard
+        val = None
+        defs = [st0 for st0 in mod.tree.body if isinstance(st0, ast.Assign) and any(isinstance(t, ast.Name) and t.id == name for t in st0.targets)]
+        others = [st0 for st0 in mod.tree.body if isinstance(st0, (ast.AugAssign, ast.AnnAssign)) and isinstance(st0.target, ast.Name) and st0.target.id == name]
+        if len(defs) == 1 and not others and len(defs[0].targets) == 1:
+            self._quiet += 1
+            try:
+                v = self.eval(defs[0].value, State(), fr)
+            finally:
+                self._quiet -= 1
+            if isinstance(v, (DictV, ListV, FuncV, Const, EnumSet, Poly)):
+                if isinstance(v, ListV):
+                    v = ListV(v.items, False, v.kind)
+                val = v
+        Interp._MODCONST[key] = val
+        return val
+
+    def _call_lambda(self, fv, call, st, fr, effects):
+        lam = fv.node
+        params = [a.arg for a in lam.args.args]
+        vals = {}
+        for i, a in enumerate(call.args):
+            if i < len(params):
+                vals[params[i]] = self.eval(a, st, fr, effects)
+        for kw in call.keywords:
+            if kw.arg in params:
+                vals[kw.arg] = self.eval(kw.value, st, fr, effects)
+        dflt = lam.args.defaults
+        for p, d in zip(params[len(params) - len(dflt):], dflt):
+            if p not in vals:
+                vals[p] = self.eval(d, st, fr)
+        saved = st.env
+        st.env = dict(saved)
+        st.env.update(vals)
+        try:
+            return self.eval(lam.body, st, fr, effects)
+        finally:
+            st.env = saved
+
     def _dict_entry(self, d, key):
         """-> the entry of a DictV selected by `key`; False when no key can match; None when undecided."""
         rs = [self._equal(key, k) for k, _v, _r in d.entries]
@@ -1275,6 +1417,14 @@ class Interp:
                 del st.memo[k]
             self._drop_facts(st, {recv_expr.attr}, fr)
             return True
+        if isinstance(recv_expr, ast.Name) and isinstance(st.env.get(recv_expr.id), RefV):
+            r = st.env[recv_expr.id]
+            st.env["__refobj"] = r.obj
+            try:
+                tgt = ast.copy_location(ast.Attribute(value=ast.copy_location(ast.Name(id="__refobj", ctx=ast.Load()), recv_expr), attr=r.attr, ctx=ast.Load()), recv_expr)
+                return self._mut_event(tgt, op, args, node, st, fr, argnodes)
+            finally:
+                st.env.pop("__refobj", None)
         if isinstance(recv_expr, ast.Name):
             cur = st.env.get(recv_expr.id)
             st.trace.append(Mut(None, "$" + recv_expr.id, cur, op, args, node, fr.func, fr.stack, argnodes))
@@ -1303,9 +1453,15 @@ class Interp:
             return Const(e.value)
         if isinstance(e, ast.Name):
             if e.id in st.env:
-                return st.env[e.id]
+                v = st.env[e.id]
+                if isinstance(v, RefV):
+                    return self.deref(v, st)
+                return v
             if e.id in ("True", "False", "None"):
                 return Const({"True": True, "False": False, "None": None}[e.id])
+            mv = self._module_const(e.id, fr)
+            if mv is not None:
+                return mv
             return Unk(e.id, fr.ft.lookup(e.id, e))
         if isinstance(e, ast.Attribute):
             en = r.enum_of_member_expr(e)
@@ -1321,9 +1477,15 @@ class Interp:
                 if k in st.heap:
                     return st.heap[k]
                 t = self.types.field_type(base.cls, e.attr) if base.cls else None
+                if t is None and base.cls and isinstance(e.ctx, ast.Load):
+                    m = self.repo.lookup_method(base.cls, e.attr)
+                    if m is not None:
+                        return BoundV(recv=base, func=m)
                 v = self.value_for_type(f"{base.name}.{e.attr}", t)
                 st.heap[k] = v
                 return v
+            if isinstance(base, (ListV, CollV, DictV)) and e.attr in MUTATORS and isinstance(e.value, (ast.Name, ast.Attribute)):
+                return BoundV(op=e.attr, ref=e.value)
             tag = f"{self.path_of(base, ast.unparse(e.value))}.{e.attr}"
             return Unk(tag, fr.ft.type_of(e))
         if isinstance(e, ast.UnaryOp):
@@ -1551,6 +1713,20 @@ class Interp:
             if hv is not None:
                 return hv
         f = e.func
+        # calls through values: a lambda / table entry, a local alias of a bound method
+        if isinstance(f, (ast.Name, ast.Subscript)) and not (isinstance(f, ast.Name) and (f.id in self.repo.functions or f.id in self.repo.classes)):
+            self._quiet += 1
+            try:
+                fv = self.eval(f, st, fr) if (isinstance(f, ast.Subscript) or f.id in st.env or self._module_const(f.id, fr) is not None) else None
+            finally:
+                self._quiet -= 1
+            if isinstance(fv, FuncV) and isinstance(fv.node, ast.Lambda):
+                return self._call_lambda(fv, e, st, fr, effects)
+            if isinstance(fv, BoundV) and fv.op is not None:
+                args = [self.eval(a, st, fr, effects) for a in e.args]
+                if effects:
+                    self._mut_event(fv.ref, fv.op, args, e, st, fr, list(e.args))
+                return Unk(f"{ast.unparse(fv.ref)}.{fv.op}()")
         # in-place mutators on attributes / locals
         if isinstance(f, ast.Attribute) and f.attr in MUTATORS and isinstance(f.value, ast.Subscript) and not isinstance(f.value.slice, ast.Slice) \
                 and isinstance(self.eval(f.value.value, st, fr), DictV):
@@ -1737,11 +1913,15 @@ class Interp:
             if kw.arg:
                 argvals[kw.arg] = self.eval(kw.value, st, fr, effects)
         recv = None
+        cname = ast.unparse(f)
         if isinstance(f, ast.Attribute):
             recv = self.eval(f.value, st, fr, effects)
+        elif isinstance(f, ast.Name) and isinstance(st.env.get(f.id), BoundV) and st.env[f.id].func is not None:
+            recv = st.env[f.id].recv
+            cname = f"{recv.name}.{st.env[f.id].func.name}"
         cev = None
         if (effects or callees) and not self._quiet:
-            cev = Call(ast.unparse(f), [c.qualname for c in callees], argvals, e, fr.func, fr.stack, False, recv)
+            cev = Call(cname, [c.qualname for c in callees], argvals, e, fr.func, fr.stack, False, recv)
             st.trace.append(cev)
         if callees and self.havoc_on_call:
             # opaque in-package call: forget what it may write
